@@ -238,7 +238,8 @@ CaseNext == /\ DOMAIN c = {"gi", "kind"} /\ UNCHANGED <<g, x, y, stage, ji>>
                  \* mesh and one half of a partition; judged against the EXACT areas (class 1e-6), not only a fresh grid's
                  \cup { [ CaseRec(ls, "float64", q, "none", p, "last", "numpy", IF sl = "" THEN "dataarray" ELSE "isel")
                            EXCEPT !.sel = sl, !.mult = m ] :
-                       ls \in { <<>>, <<2>> }, q \in Quads, p \in {"ramp", "ones"}, sl \in {"", "evens", "high"},
+                       \* one-point rules have no accuracy class: only rules at least as exact as the default one are scaled
+                       ls \in { <<>>, <<2>> }, q \in Quads \ {"t1", "g1"}, p \in {"ramp", "ones"}, sl \in {"", "evens", "high"},
                        m \in (IF c.kind = 1 /\ Grids[c.gi].scalable THEN Scales ELSE {}) }
                  \cup { CaseRec(ls, dt, q, "none", p, "last", "numpy", "dataset") :
                        ls \in { <<>>, <<2>>, << Grids[c.gi].nf >> }, dt \in {"float64", "int64"}, q \in Quads,
